@@ -16,7 +16,10 @@ BoolD(b) == [t |-> "bool", bv |-> b]
 Lit(v, rules) == [t |-> "lit", v |-> v, rules |-> rules]
 
 \* ---- probes ----
-FormatProbes == Emails \cup Uris \cup Uuids \cup Dates \cup DateTimes
+\* position sweeps: a valid sample with one position replaced (every position is looked at by a recogniser, or the recogniser is wrong)
+Sweep(smp, bad) == {[smp EXCEPT ![i] = b] : i \in DOMAIN smp, b \in bad}
+FormatSweeps == Sweep(SUuid, {103}) \cup Sweep(SDate, {120, 57}) \cup Sweep(SDateTime, {120})
+FormatProbes == Emails \cup Uris \cup Uuids \cup Dates \cup DateTimes \cup FormatSweeps
 Docs == {NumD(b) : b \in NumProbes} \cup {StrD(c) : c \in StrProbes \cup FormatProbes}
         \cup {Null, BoolD(TRUE), BoolD(FALSE), [t |-> "arr", items |-> <<>>], [t |-> "obj", ps |-> <<>>]}
 DocSeq == SetToSeq(Docs)
